@@ -328,6 +328,23 @@ static void mconstraint(unsigned m, double *result, unsigned n_, const double *x
     maybe_stop();
 }
 
+/* preconditioner (approximate Hessian times v): a fixed positive diagonal, negated together with the objective */
+static long npre = 0;
+static void precond(unsigned n_, const double *x_, const double *v, double *vpre, void *data)
+{
+    unsigned i;
+    fdata_t *d = (fdata_t *) data;
+    if (!d || d->magic != 0xC0FFEEu || d->role != 0) fprintf(out, "A bad preconditioner data pointer\n");
+    if (n_ != expect_n) fprintf(out, "A preconditioner n=%u expected %u\n", n_, expect_n);
+    for (i = 0; i < n_; ++i) { double h = 2 * (1 + 0.5 * i); vpre[i] = (negobj ? -h : h) * v[i]; }
+    if (++npre <= 40) {       /* the dual solver calls this very often: log the first ones, count the rest */
+        fprintf(out, "P x="); phexlist(out, x_, (int) n_);
+        fprintf(out, " v="); phexlist(out, v, (int) n_);
+        fprintf(out, " vpre="); phexlist(out, vpre, (int) n_);
+        fprintf(out, "\n");
+    }
+}
+
 /* legacy (nlopt_func_old) adapters */
 static double objective_old(int n, const double *x, double *grad, void *data) { return objective((unsigned) n, x, grad, data); }
 static double sconstraint_old(int n, const double *x, double *grad, void *data) { return sconstraint((unsigned) n, x, grad, data); }
@@ -496,7 +513,11 @@ static void one_run(const char *line)
     top = o;
     fdatas[0].magic = 0xC0FFEEu; fdatas[0].role = 0; fdatas[0].vec = 0;
     if (!getint(line, "noobj", 0)) {
-        if (getint(line, "max", 0)) nlopt_set_max_objective(o, objective, &fdatas[0]);
+        if (getint(line, "pre", 0)) {
+            if (getint(line, "max", 0)) nlopt_set_precond_max_objective(o, objective, precond, &fdatas[0]);
+            else nlopt_set_precond_min_objective(o, objective, precond, &fdatas[0]);
+        }
+        else if (getint(line, "max", 0)) nlopt_set_max_objective(o, objective, &fdatas[0]);
         else nlopt_set_min_objective(o, objective, &fdatas[0]);
     }
     if ((v = getkey(line, "lb", b, sizeof b)) && parselist(v, &lb) >= 0) fprintf(out, "C lb ret=%d\n", (int) nlopt_set_lower_bounds(o, lb));
@@ -542,10 +563,12 @@ static void one_run(const char *line)
 
     for (r = 0; r < runs; ++r) {
         unsigned i;
-        for (i = 0; i < n; ++i) x[i] = x0 ? x0[i] : 0.0;
+        if (!(r > 0 && getint(line, "fixall2", 0)))
+            for (i = 0; i < n; ++i) x[i] = x0 ? x0[i] : 0.0;
         x[n] = 777.0;
         optf = -12345.678;
         ncalls = nobj = nccalls = 0;
+        npre = 0;
         vclock = gethex(line, "clock0", 0.0);   /* the virtual clock need not start at 0 (a later run in a long-lived thread) */
         depth = 0;
         if (getint(line, "reseed", 0) && getint(line, "seed", -1) >= 0) nlopt_srand((unsigned long) getint(line, "seed", 0));
@@ -560,6 +583,10 @@ static void one_run(const char *line)
                 nlopt_get_force_stop(target), x[n] == 777.0, nlopt_get_errmsg(target) != NULL);
         getters("post", target);
         if (stopat >= 0 && r == 0) stopat = -1;   /* history: stopped run followed by a normal run */
+        if (r == 0 && getint(line, "fixall2", 0)) {   /* history: ordinary run, then every coordinate fixed at the result, run again */
+            nlopt_set_lower_bounds(target, x);
+            nlopt_set_upper_bounds(target, x);
+        }
     }
     if (target != o) nlopt_destroy(target);
     nlopt_destroy(o);
